@@ -816,6 +816,7 @@ class World:
         self.hosts: List[Host] = []
         self.instances: List[SimInstance] = []
         self.partition: set = set()
+        self.oneway: set = set()
         self.log: List[tuple] = []
         self.next_pid = 1000
         self._by_sv: Dict[int, SimInstance] = {}
@@ -916,14 +917,22 @@ class World:
 
     def heal(self, a: int, b: int) -> None:
         self.partition.discard(frozenset((a, b)))
+        self.oneway.discard((a, b))
+        self.oneway.discard((b, a))
         self.obs('heal', a, b)
 
     def heal_all(self) -> None:
         self.partition.clear()
+        self.oneway.clear()
         self.obs('heal_all')
 
     def reachable(self, a: SimInstance, b: SimInstance) -> bool:
-        return a is b or frozenset((a.idx, b.idx)) not in self.partition
+        """Can a call from ``a`` reach ``b``? (one-way losses are directional)"""
+        return a is b or (frozenset((a.idx, b.idx)) not in self.partition and (a.idx, b.idx) not in self.oneway)
+
+    def cut_oneway(self, a: int, b: int) -> None:
+        self.oneway.add((a, b))
+        self.obs('cut_oneway', a, b)
 
     def rpc(self, src: SimInstance, host_id: str, port: int, ns: str, method: str, args: tuple):
         """An XML-RPC from a proxy of ``src``. Transport failures are OSError, remote RPCError becomes Fault."""
